@@ -846,6 +846,39 @@ def apply_op(doc, st, op, out):
                 ncomp = len(s.components)
                 s.data = numpy.array([qlong(r) for _ in range(s.data.size + extra_rows * ncomp)],
                                      dtype=numpy.float32).reshape((-1, ncomp))
+        elif how == 'src_inplace':
+            # the SAME array object is edited in place (element / slice assignment, *=, +=)
+            srcs = [x for x in g.sourceById.values() if isinstance(x, source.FloatSource) and x.data.size > 0]
+            seen_, uniq = set(), []
+            for x in srcs:
+                if id(x) not in seen_:
+                    seen_.add(id(x))
+                    uniq.append(x)
+            if uniq:
+                x = uniq[op['pos'] % len(uniq)]
+                d = x.data
+                mode = op.get('mode', 'elem')
+                if mode == 'elem':
+                    for _ in range(op.get('n', 1)):
+                        d[r.randrange(d.shape[0]), r.randrange(d.shape[1])] = qlong(r)
+                elif mode == 'slice':
+                    i = r.randrange(d.shape[0])
+                    d[i:i + 2] = numpy.array([[qlong(r) for _ in range(d.shape[1])]], dtype=numpy.float32)
+                elif mode == 'mul':
+                    d *= r.choice([2.0, 0.5, -1.0, 4.0])
+                else:
+                    d += r.choice([0.5, -0.25, 1.0, 8.0])
+        elif how == 'prim_convert':
+            # a polygon primitive is replaced by what the library's own conversion gives
+            cands = [i for i, p_ in enumerate(g.primitives) if type(p_).__name__ in ('Polylist', 'Polygons')]
+            if cands:
+                i = cands[op['pos'] % len(cands)]
+                try:
+                    ts = g.primitives[i].triangleset()
+                except Exception:  # noqa  (the conversion itself is C11's business)
+                    ts = None
+                if ts is not None:
+                    g.primitives[i] = ts
         elif how == 'revertex':
             # every primitive is replaced by primitives over a new position source: Geometry.save
             # has to re-point <vertices>
@@ -964,7 +997,7 @@ def apply_op(doc, st, op, out):
             elif how.startswith('bvi_'):
                 list_edit(mn.inputs, dict(op, how=how[4:]), r,
                           lambda: (r.choice(['TEX0', 'UV', 'CH1', 'CH2']), 'TEXCOORD',
-                                   None if r.random() < 0.2 else str(r.randint(0, 3))))
+                                   None if r.random() < 0.35 else str(r.randint(0, 3))))
         return
     if t == 'ref':
         # references in both document orders, and renames of what is referred to
@@ -1112,6 +1145,10 @@ def apply_op(doc, st, op, out):
                 for a_ in ('constant_att', 'linear_att', 'quad_att', 'zfar', 'falloff_ang', 'falloff_exp'):
                     if hasattr(l, a_):
                         setattr(l, a_, None)
+            mns = [m_ for _, gn_ in children_of_type(doc, scene.GeometryNode) for m_ in gn_.materials]
+            for m_ in (mns if everything else mns[op['pos'] % max(1, len(mns)):][:1]):
+                # the optional input_set of every binding goes away (the number of bindings stays)
+                m_.inputs[:] = [(i_[0], i_[1], None) for i_ in m_.inputs]
             a = doc.assetInfo
             a.title = a.subject = a.keywords = a.revision = None
             for c in a.contributors:
